@@ -1011,6 +1011,11 @@ class FilesFamily(IcalFamily):
             err = io.StringIO()
             with contextlib.redirect_stderr(err):
                 m2 = file_to_timeline(path)
+                # loading is repeatable: the same file read again gives the same timeline
+                m3 = file_to_timeline(path)
+                if ([obs_pattern(q) for _, q in m3._recurring_patterns] != [obs_pattern(q) for _, q in m2._recurring_patterns]
+                        or [obs_static(i) for i in m3._static_intervals] != [obs_static(i) for i in m2._static_intervals]):
+                    return {"err": "loading the same .ics file twice gives different timelines"}
                 k2 = 0
                 for idx in order:
                     if idx not in assign:
